@@ -130,7 +130,7 @@ def replay_chunk(args):
             for plat, ents in byp.items():
                 direct[plat] = []
                 for e in ents:
-                    defs = scen.x_defs(e) + \
+                    defs = scen.x_defs(e) + [scen.XSTR_DEF] + \
                            (["HDR=" + render.val_text(e["hdr"])] if e.get("hdr", "U") != "U" else [])
                     # (-include is looked up beside the main file as spelled - C04's recorded finding - so
                     # entries with forced includes keep the canonical spelling of their file here)
